@@ -8,6 +8,7 @@ from .common import Report, seed
 INV_OF = {
     "C10": {"DoneOnlyIfBodyCompleted", "LockHolderAlive", "HandledSignalInBody", "NoPidAfterOwnEnd", "NoBodyAfterDone", "TypeOK"},
     "C05": {"OneBodyAtATime", "NoBodyAfterDone"},
+    "C11": {"OneBodyAtATime", "NoBodyAfterDone"},
 }
 
 
